@@ -325,6 +325,9 @@ class PDFStream(PDFObject):
             self.rawdata = None
             return
         for f, params in filters:
+            if not isinstance(params, dict):
+                # no (or unusable) decode parameters for this filter
+                params = {}
             if f in LITERALS_FLATE_DECODE:
                 # will get errors if the document is encrypted.
                 try:
